@@ -5,6 +5,7 @@
 import SonicModel.Lemmas.SkipMain
 import SonicModel.Lemmas.EntryIff
 import SonicModel.Impl.Entry
+import SonicModel.Lemmas.StrictLazy
 namespace Sonic.Thm.C02
 open Sonic Gen
 
@@ -63,6 +64,20 @@ theorem skipNumber_eq_spec (buf : Buf) (p : Nat) (hp : p < buf.size)
     (hc : buf[p] = 45 ∨ isDigit buf[p] = true) :
     (Impl.doSkipNumber buf buf[p] (p+1)).erase = Res.ofOpt (Spec.number buf p) :=
   doSkipNumber_refines buf p hp hc
+
+/-- **the two accept sets of the property are nested**: every text the fully-decoding grammar accepts (RFC 8259, every `\\u`
+    escape a scalar value, every number finite) the validate-and-skip grammar accepts, as the same document -/
+theorem decoding_accept_implies_skipping_accept (buf : Buf) (s e : Nat) (h : Spec.document true buf = some (s, e)) :
+    Spec.document false buf = some (s, e) := by
+  unfold Spec.document at h ⊢
+  simp only at h ⊢
+  cases hv : Spec.value true (Spec.fuelFor buf) buf (skipWs buf 0) with
+  | ok e1 =>
+    simp only [hv] at h
+    simp only [Spec.value_strict_lazy buf _ _ e1 hv]
+    exact h
+  | err => simp [hv] at h
+  | fuel => simp [hv] at h
 
 /-! non-vacuity: concrete inputs on which the hypotheses hold and both sides are non-trivial
     (byte arrays written out because string literals do not reduce in the kernel) -/
